@@ -115,6 +115,24 @@ impl Scenario for Auth {
             let prefix: Vec<Action> = match *s {
                 "fresh" => vec![],
                 "funded" => vec![bond(ALICE, 1000), bond_st(BOB, 777), bond_st(ALICE, 50), bond(BOB, 20), transfer(ALICE, HUB, BSEI, 3)],
+                "no_airdrop_registry" => {
+                    // the six protocol contracts wired, no airdrop registry registered (hub config slot is None)
+                    c = deploy(&Cfg::default());
+                    c.instantiate(
+                        Kind::Hub,
+                        "hub2",
+                        OWNER,
+                        &json!({"epoch_period":10,"underlying_coin_denom":USEI,"unbonding_period":30,"peg_recovery_fee":"0","er_threshold":"1","reward_denom":KUSD,"update_reward_index_addr":UPDATER}),
+                    )
+                    .unwrap();
+                    let (k, st) = c.contracts.remove("hub2").unwrap();
+                    c.contracts.insert(HUB.into(), (k, st));
+                    c.tx(OWNER, HUB, &json!({"update_config":{"rewards_dispatcher_contract":DISP,"validators_registry_contract":REG,"bsei_token_contract":BSEI,"stsei_token_contract":STSEI,"airdrop_registry_contract":null,"rewards_contract":REWARD,"update_reward_index_addr":null}}), &[]).unwrap();
+                    for p in SENDERS {
+                        c.credit(p, USEI, 1_000_000);
+                    }
+                    vec![bond(ALICE, 1000), bond_st(BOB, 777), transfer(ALICE, HUB, BSEI, 3)]
+                }
                 "evolved" => vec![
                     bond(ALICE, 1000),
                     bond_st(BOB, 777),
